@@ -151,3 +151,4 @@ package forward
 //@   wiring ReverseProxy.Director=New$1 ReverseProxy.ErrorHandler=DefaultHandler.ServeHTTP
 //@   ensures result != nil && fresh(result)
 //@   ensures {C16} responses_relayed_as_they_come: result.ModifyResponse == nil && result.Transport == nil
+//@   ensures {C16} library_defaults_for_copying_and_logging: result.BufferPool == nil && result.ErrorLog == nil && result.Rewrite == nil && result.FlushInterval == 0
